@@ -98,6 +98,7 @@ def make_demog(d):
     c = d.get('c', [0.25, 0.125, 0.5, 1.0, 0.0625])
     raise_at = [tuple(r) for r in d.get('raise_at', [])]
     die_at = [tuple(r) for r in d.get('die_at', [])]
+    slow_first = d.get('slow_first', 0.0)      # seconds the most deleterious job takes (so that completions arrive out of order)
     ngam = d.get('ngam', 1)
 
     def shape_arr(ns):
@@ -111,6 +112,9 @@ def make_demog(d):
             raise Boom('worker failure at gamma=%r' % (gs,))
         if gs in die_at:
             os._exit(3)
+        if slow_first and pts == max(d.get('pts_list', [pts])) and all(g == d.get('slow_gamma') for g in gs):
+            import time
+            time.sleep(slow_first)
         if kind == 'equil':
             return DemogSelModels.equil([gs[0]], ns, pts)
         if kind == 'split':       # real two-population model with one or two gammas
@@ -295,6 +299,10 @@ def run_mp(req):
     ckw2 = dict(ckw); ckw2['gamma_pts'] = base.get('gamma_pts2', base['gamma_pts'])
     d1 = dict(base['demog']); d1['ngam'] = 1
     d2 = dict(base['demog']); d2['ngam'] = 2
+    # the first job (most deleterious gamma) is slow: with >= 2 workers its result arrives after later jobs'
+    g0 = float(-np.logspace(np.log10(base['gamma_bounds'][1]), np.log10(base['gamma_bounds'][0]), base['gamma_pts'])[0])
+    for dd in (d1, d2):
+        dd['slow_first'] = base.get('slow_first', 0.05); dd['slow_gamma'] = g0; dd['pts_list'] = list(base['pts'])
     f1, f2 = make_demog(d1), make_demog(d2)
     ns1, ns2, pts = base['ns1'], base['ns2'], base['pts']
 
